@@ -137,7 +137,8 @@ example : NoTypeDelete (.camel id) ∧ NoTypeDelete (.sdir (fun _ _ => false) (f
 
 /-! #### untouched attributes survive an extension (S2) -/
 
-/-- PARTIAL form of `untouched_preserved` for `extend_schema` — proved for ALL heaps, schemas with distinct registered
+/-- SUBSUMED (kept for name stability): the type-level part of the full `untouched_preserved_extend` (Props/C14_extend.lean).
+    PARTIAL form of `untouched_preserved` for `extend_schema` — proved for ALL heaps, schemas with distinct registered
     names (a Python dict) and extension documents that do not redefine a registered name: the object registered under
     the name of every source type is a rebuilt copy that keeps name, kind, description, default resolver, type resolver
     and (a prefix of) the enum values exactly as far as the `_extend_*` constructors pass them on (`TypeKept cfg`).
@@ -172,7 +173,8 @@ example : (names s0).Nodup ∧ (∀ e, e ∈ zed.newTypes → e.1 ∉ names s0) 
 
 /-! #### heal: what is established at each hook, and fuel -/
 
-/-- PARTIAL form of `heal_closed` (argument / input-field level): whatever `_HealSchemaVisitor.on_argument` returns is an
+/-- SUBSUMED (kept for name stability): a hook-level corollary of the full `heal_closed` (Props/C14_closed.lean).
+    PARTIAL form of `heal_closed` (argument / input-field level): whatever `_HealSchemaVisitor.on_argument` returns is an
     argument whose type reference IS the registered object. -/
 theorem heal_argument_closed_partial (reg : List (String × Addr)) (h : Heap) (a a' : Addr) (g : ArgO)
     (hr : h.readArg a = some g) (e : (onArgument .heal reg h a).2 = some a') :
@@ -187,7 +189,8 @@ theorem heal_argument_closed_partial (reg : List (String × Addr)) (h : Heap) (a
     simp only [argClosed, argShape, Heap.readArg, read_write_same h a _ hlt]
     exact (healed_registered reg g.ty t ht).1
 
-/-- PARTIAL form of `heal_closed` (field level): the type reference of whatever `on_field`'s heal step returns IS the
+/-- SUBSUMED (kept for name stability): a hook-level corollary of the full `heal_closed` (Props/C14_closed.lean); the assembly and the fuel sufficiency announced as missing below are `heal_closed` / `healLoop_two`.
+    PARTIAL form of `heal_closed` (field level): the type reference of whatever `on_field`'s heal step returns IS the
     registered object. Missing for the full `heal_closed` (closedB of the result of `healLoop` for every well-formed
     schema): that later steps of the same round keep these facts (every heal write only re-points references to
     registered objects, so they do — the planned proof is a `StepImp` relation preserved by all hooks), the assembly
